@@ -2,14 +2,16 @@
   C18 / C04 (exit status) / C09 (driver model).
 -/
 import PatchModel.Model.Driver
+import PatchModel.Lemmas.DriverFacts
 namespace PatchModel.C18
-open PatchModel
+open PatchModel PatchModel.DriverFacts
 
 /-- backup name: prefix + path + suffix per -B / -z, ".orig" appended when neither is given -/
 theorem backupName_spec (o : Options) (p : Bytes) :
     (o.backupPrefix = [] → o.backupSuffix = [] → backupName o p = p ++ str ".orig") ∧
     (o.backupPrefix ≠ [] ∨ o.backupSuffix ≠ [] → backupName o p = o.backupPrefix ++ p ++ o.backupSuffix) := by
-  sorry
+  unfold backupName
+  cases h1 : o.backupPrefix <;> cases h2 : o.backupSuffix <;> simp
 
 /-- the first backup of an existing regular file moves its bytes and mode to the backup name; the target path is then free -/
 theorem makeBackupFor_existing (o : Options) (p : Bytes) (s : DState) (b : Bytes) (m : Nat)
@@ -23,7 +25,21 @@ theorem makeBackupFor_existing (o : Options) (p : Bytes) (s : DState) (b : Bytes
       s'.fs.lookup (absPath s p) = none ∧
       s'.backedUp.contains (backupName o p) = true ∧
       s'.trace = s.trace ++ [FsOp.rename (absPath s p) (absPath s (backupName o p))] := by
-  sorry
+  have hst := Fs.stat_of_file hfile
+  have happ : s.fs.apply (.rename (absPath s p) (absPath s (backupName o p))) =
+      .ok ((s.fs.erase (absPath s p)).set (absPath s (backupName o p)) (.file b m)) := by
+    simp only [Fs.apply, hfile, hdir]; rfl
+  refine ⟨{ s with backedUp := s.backedUp ++ [backupName o p],
+                   fs := (s.fs.erase (absPath s p)).set (absPath s (backupName o p)) (.file b m),
+                   trace := s.trace ++ [FsOp.rename (absPath s p) (absPath s (backupName o p))],
+                   opCount := s.opCount + 1 }, ?_, ?_, ?_, ?_, ?_⟩
+  · rw [makeBackupFor_run, if_neg hnot, hst, if_pos (by rfl)]
+    exact doOp_run_ok hf happ
+  · exact Fs.lookup_set_self _ _ _
+  · show (Fs.set _ _ _).lookup _ = none
+    rw [Fs.lookup_set_ne _ _ _ _ (Ne.symm hne), Fs.lookup_erase_self]
+  · simp
+  · rfl
 
 /-- a target that does not exist yields an empty backup file -/
 theorem makeBackupFor_absent (o : Options) (p : Bytes) (s : DState)
@@ -34,17 +50,26 @@ theorem makeBackupFor_absent (o : Options) (p : Bytes) (s : DState)
     (hf : s.faultAt = none) :
     ∃ s' m, (makeBackupFor o p).run s = (.ok (), s') ∧
       s'.fs.lookup (absPath s (backupName o p)) = some (.file [] m) := by
-  sorry
+  have happ : s.fs.apply (.creat (absPath s (backupName o p))) =
+      .ok (s.fs.set (absPath s (backupName o p)) (.file [] (0o666 - (0o666 &&& s.fs.umask)))) := by
+    simp only [Fs.apply, hnone, hdir]; rfl
+  refine ⟨{ s with backedUp := s.backedUp ++ [backupName o p],
+                   fs := s.fs.set (absPath s (backupName o p)) (.file [] (0o666 - (0o666 &&& s.fs.umask))),
+                   trace := s.trace ++ [FsOp.creat (absPath s (backupName o p))],
+                   opCount := s.opCount + 1 }, (0o666 - (0o666 &&& s.fs.umask)), ?_, ?_⟩
+  · rw [makeBackupFor_run, if_neg hnot, habs, if_neg (by simp)]
+    exact doOp_run_ok hf happ
+  · exact Fs.lookup_set_self _ _ _
 
 /-- several patches for one file: only the first backup is made — a later call for the same backup name does nothing at all -/
 theorem makeBackupFor_again (o : Options) (p : Bytes) (s : DState) (hin : s.backedUp.contains (backupName o p) = true) :
     (makeBackupFor o p).run s = (.ok (), s) := by
-  sorry
+  rw [makeBackupFor_run, if_pos hin]
 
 end PatchModel.C18
 
 namespace PatchModel.C04x
-open PatchModel
+open PatchModel PatchModel.DriverFacts
 
 /-- the events that make a run "not clean" -/
 def badEvent : DEv → Bool
@@ -57,7 +82,14 @@ def badEvent : DEv → Bool
 
 /-- the exit status is 0, 1 or 2 -/
 theorem exit_range (o : Options) (s0 : DState) : (runPatch o s0).1 = 0 ∨ (runPatch o s0).1 = 1 ∨ (runPatch o s0).1 = 2 := by
-  sorry
+  unfold runPatch
+  split
+  · exact Or.inl rfl
+  · split
+    · split
+      · exact Or.inr (Or.inl rfl)
+      · exact Or.inl rfl
+    · exact Or.inr (Or.inr rfl)
 
 /-- **exit status tells the truth**: 2 exactly when an exception reached `main`; otherwise 1 exactly when some hunk was rejected or
     ignored, a patch was skipped, refused, is a binary diff, or a file could not be deleted; 0 otherwise -/
@@ -71,12 +103,14 @@ theorem exit_truth (o : Options) (s0 : DState) (h0 : s0.hadFailure = false ∧ s
 end PatchModel.C04x
 
 namespace PatchModel.C09
-open PatchModel
+open PatchModel PatchModel.DriverFacts
 
 /-- an abort keeps the tree exactly as it was at the instant of the exception (no cleanup, no rollback, no further writes) -/
 theorem abort_keeps_state (o : Options) (s0 s : DState) (e : Exn) (hh : o.showHelp = false ∧ o.showVersion = false)
     (h : (processPatchM o).run s0 = (.error e, s)) : runPatch o s0 = (2, s) := by
-  sorry
+  unfold runPatch
+  rw [hh.1, hh.2, h]
+  rfl
 
 /-- **a section is all or nothing with respect to the patch text**: when a section is abandoned because of its text (parser error,
     malformed counts: `parser_error` / `invalid_argument`), it has not touched any file content: the only operations it performed are
@@ -90,7 +124,22 @@ theorem section_atomic (o : Options) (format : Format) (s s' : DState) (e : Exn)
     content); no other statement — in particular nothing that can throw because of the patch text — lies between them -/
 theorem writeFile_trace (p content : Bytes) (s s' : DState) (h : (writeFile p content).run s = (.ok (), s')) :
     s'.trace = s.trace ++ (if content.isEmpty then [FsOp.creat (absPath s p)] else [FsOp.creat (absPath s p), FsOp.write (absPath s p) content]) := by
-  sorry
+  unfold writeFile at h
+  rw [run_bind, run_opCreat] at h
+  split at h
+  · next a s1 h1 =>
+    rcases doOp_cases h1 with ⟨_, fs', _, rfl⟩ | ⟨h2, _⟩
+    · rw [run_opWrite] at h
+      split at h
+      · next hc => cases h; rw [if_pos hc]
+      · next hc =>
+        rw [if_neg hc]
+        rcases doOp_cases h with ⟨_, fs2, _, rfl⟩ | ⟨h2, _⟩
+        · show (s.trace ++ [_]) ++ [_] = _
+          rw [List.append_assoc]; rfl
+        · cases h2
+    · cases h2
+  · cases h
 
 /-- the sources of git renames are removed only after every deferred file has been completely written: in the operations of
     `DeferredWriter::finalize` no `unlink`/`rmdir` precedes a `creat`/`write`/`chmod`/`mkdir` -/
